@@ -68,6 +68,10 @@ class Unknown(Exception):
     pass
 
 
+class ArithRaise(Exception):
+    """the fragment raises an arithmetic exception in this region"""
+
+
 class Region:
     def __init__(self, name, groups, extra=()):
         self.name = name
@@ -164,6 +168,20 @@ class Interp:
             if _const(l) is not None and _const(r) is not None:
                 return str(_const(l) + _const(r))
             raise Unknown(f"{l} + {r}")
+        if isinstance(e, ast.BinOp) and isinstance(e.op, ast.Mod):
+            l, r = self.term(e.left, env), self.term(e.right, env)
+            if r != "len":
+                raise Unknown(f"{l} % {r}")
+            if self.r.same("len", "0"):
+                raise ArithRaise("ZeroDivisionError")
+            # 0 <= l < len: unchanged; -len <= l < 0: l + len; otherwise the
+            # value wraps (not a term of the domain)
+            if self.r.cmp(l, "0") >= 0 and self.r.cmp(l, "len") < 0:
+                return l
+            if l == "i" and self.r.cmp(l, "0") < 0 \
+                    and self.r.cmp(l, "-len") >= 0:
+                return "i+len"
+            raise Unknown(f"{l} % len wraps")
         if isinstance(e, ast.Call) and norm(e.func) in ("max", "min") \
                 and len(e.args) == 2 and not e.keywords:
             a, b = self.term(e.args[0], env), self.term(e.args[1], env)
@@ -307,6 +325,11 @@ def index_table(ctx, res):
                 env = {ip: "i"}
                 try:
                     it.run(fn.body, env)
+                except ArithRaise as a:
+                    res.violation(f"{key}:{rname}:raises", mod.loc(fn),
+                                  f"{key}: for an index with {rname} the "
+                                  f"normalisation raises {a}")
+                    continue
                 except Unknown as u:
                     raise AnalysisError(
                         f"{key}: cannot decide {u} - the integer "
@@ -326,4 +349,124 @@ def index_table(ctx, res):
                            f"snapshot no longer gives the list)")
         if n_regions < 3:
             raise AnalysisError(f"{key}: only {n_regions} regions evaluated")
+    # 4. the capture of the item an integer key is about to replace/delete:
+    # either the built-in subscript decides (try / except IndexError), or an
+    # explicit range test does - which then must accept exactly the regions
+    # in which the built-in operation succeeds
+    fn, ps = _fragment(repo, "_removed_items")
+    if len(ps) < 3:
+        raise AnalysisError("_removed_items signature")
+    itemsp, ip, invalidp = ps[:3]
+    res.instance("_removed_items", mod.loc(fn), index_parameter=ip)
+
+    def capture(stmts, it, env):
+        for st in stmts:
+            if isinstance(st, ast.Expr) and isinstance(st.value, ast.Constant):
+                continue
+            if isinstance(st, ast.Assign) and len(st.targets) == 1 \
+                    and isinstance(st.targets[0], ast.Name):
+                try:
+                    env[st.targets[0].id] = it.term(st.value, env)
+                except Unknown:
+                    env.pop(st.targets[0].id, None)
+                continue
+            if isinstance(st, ast.If):
+                r = capture(st.body if it.test(st.test, env) else st.orelse,
+                            it, env)
+                if r is not None:
+                    return r
+                continue
+            if isinstance(st, ast.Try):
+                handles = any(h.type is not None and "IndexError" in norm(h.type)
+                              for h in st.handlers)
+                r = capture(st.body, it, env)
+                if r is not None and r[0] == "CAPTURE" and handles:
+                    return ("LIST-DECIDES",)
+                if r is not None:
+                    return r
+                continue
+            if isinstance(st, ast.Return):
+                v = st.value
+                if isinstance(v, ast.Name) and v.id == invalidp:
+                    return ("INVALID",)
+                if isinstance(v, ast.List) and len(v.elts) == 1 \
+                        and isinstance(v.elts[0], ast.Subscript) \
+                        and norm(v.elts[0].value) == itemsp:
+                    return ("CAPTURE", it.term(v.elts[0].slice, env))
+                raise Unknown(f"return `{norm(st)[:40]}`")
+            raise Unknown(f"statement `{norm(st)[:40]}`")
+        return None
+    n_regions = 0
+    for table, extra in ((REGIONS_POS, EXTRA_POS), (REGIONS_ZERO, {})):
+        for rname, groups in table.items():
+            region = Region(rname, groups, extra.get(rname, ()))
+            it = Interp(region, fn, ip, {f"len({itemsp})"})
+            try:
+                r = capture(fn.body, it, {ip: "i"})
+            except (Unknown, ArithRaise) as u:
+                raise AnalysisError(f"_removed_items: cannot decide {u}")
+            n_regions += 1
+            if r is None:
+                raise AnalysisError(f"_removed_items: no result for {rname}")
+            if r[0] == "LIST-DECIDES":
+                res.oblige(True, f"_removed_items:{rname}", "", "")
+                continue
+            valid = rname in IN_RANGE
+            ok = (r[0] == "CAPTURE" and (region.same(r[1], "i") or (
+                region.same(r[1], "i+len") and region.cmp("i", "0") < 0))) \
+                if valid else r[0] == "INVALID"
+            res.oblige(ok, f"_removed_items:{rname}", mod.loc(fn),
+                       f"_removed_items: for an index with {rname} the helper "
+                       f"answers {r[0]} but the built-in list operation "
+                       f"{'succeeds' if valid else 'raises IndexError'} there: "
+                       + ("the removed item is not captured, so the deletion "
+                          "or replacement is not reported (or reported "
+                          "without the old item)" if valid else
+                          "an item is reported for an operation that fails"))
+    if n_regions < 10:
+        raise AnalysisError("_removed_items: regions")
+    # the key normaliser is documented for valid indices only.  Where a
+    # mutator evaluates it *before* the built-in operation has accepted the
+    # index, it sees every index: it must then not raise an exception of its
+    # own (the list operation is the one that raises IndexError)
+    early = []
+    tl = next((n for n in mod.tree.body if isinstance(n, ast.ClassDef)
+               and n.name == "TraitList"), None)
+    if tl is None:
+        raise AnalysisError("TraitList not found")
+    n_users = 0
+    for m in tl.body:
+        if not isinstance(m, ast.FunctionDef):
+            continue
+        norm_at = [c.lineno for c in ast.walk(m) if isinstance(c, ast.Call)
+                   and norm(c.func) == "_normalize_slice_or_index"]
+        op_at = [c.lineno for c in ast.walk(m) if isinstance(c, ast.Call)
+                 and isinstance(c.func, ast.Attribute)
+                 and norm(c.func.value) == "super()"
+                 and c.func.attr == m.name]
+        if norm_at and op_at:
+            n_users += 1
+            if min(norm_at) < min(op_at):
+                early.append(m)
+    if n_users < 2:
+        raise AnalysisError("users of _normalize_slice_or_index not found")
+    fn, ps = _fragment(repo, "_normalize_slice_or_index")
+    for m in early:
+        for table, extra in ((REGIONS_POS, EXTRA_POS), (REGIONS_ZERO, {})):
+            for rname, groups in table.items():
+                it = Interp(Region(rname, groups, extra.get(rname, ())), fn,
+                            ps[0], {ps[1]})
+                try:
+                    it.run(fn.body, {ps[0]: "i"})
+                except ArithRaise as a:
+                    res.violation(
+                        f"TraitList.{m.name}:normalise-before-operation:{rname}",
+                        mod.loc(m),
+                        f"TraitList.{m.name} normalises the key before "
+                        f"super().{m.name} has accepted it, and for {rname} "
+                        f"the normaliser raises {a}: the caller sees that "
+                        f"instead of the IndexError the built-in list raises")
+                except Unknown:
+                    pass
+        res.oblige(True, f"TraitList.{m.name}:normalise-before-operation", "", "")
     res.floor(3)
